@@ -14,3 +14,4 @@ open FormulaeModel
 #print axioms C09.incompleteRows_after_drop
 #print axioms C09.C09_drop_eq_filtered
 #print axioms C09.actions_tie
+#print axioms C09.C09_pipeline_readings_agree
